@@ -307,7 +307,7 @@ func checkC09(c *gen.WPlusCase) Outcome {
 	if c.RawRoot != "" {
 		docs[fc.RootPath()] = c.RawRoot
 	}
-	r := runFlatten(fc, docs, func(req *wproto.Request) { req.Probe = true })
+	r := runFlatten(fc, docs, func(req *wproto.Request) { req.Probe = !c.NoProbe })
 	if r.harness != "" {
 		out.Harness = r.harness
 		return out
